@@ -84,7 +84,7 @@ class PROP(Prop):
     shard_min = 1
     kernel_sample = 16
     rule = ("random operation sequences over the 13 operations (generic call, five typed reads, five typed writes, slave selection, set_timeout / reset_timeout, connect with and "
-            "without explicit slave / timeout, timeouts up to Duration::MAX) against a scripted peer (reply / reply of the same kind with another echo or item count / exception / mismatching reply / silence under a timeout / close), executed with "
+            "without explicit slave / timeout, timeouts from Duration::ZERO up to Duration::MAX) against a scripted peer (reply / reply of the same kind with another echo or item count / exception / mismatching reply / silence under a timeout / close), executed with "
             "the real synchronous client AND the real asynchronous client over loopback TCP and over a pseudo-terminal (RTU); both compared with "
             "each other and with the model's prediction, on the frames the peer received and on every result.  non-trivial = sequence with >= 2 "
             "operations")
@@ -120,6 +120,19 @@ class PROP(Prop):
                 gid = "%smax%d" % (proto, i)
                 cs.append(Case("SYNC " + body, {"g": gid, "mode": "sync", "nops": len(ops), "model_line": "SYNC " + mbody}))
                 cs.append(Case("ASYNC " + body, {"g": gid, "mode": "async", "nops": len(ops), "model_line": "ASYNC " + mbody}))
+            # a ZERO timeout is a timeout: an operation that has to wait for its peer times out at once, exactly as the async operation
+            # under tokio::time::timeout(Duration::ZERO, ..) does (only `None` means "no timeout")
+            for i in range(3 if tier == "quick" else 20):
+                ops, slave = gen_ops(rng, proto, rng.randrange(0, 3), False)
+                if ops and ops[-1].endswith(" c"):
+                    ops = ops[:-1]
+                req = ("RHR", rng.randrange(65536), rng.randrange(1, 5))
+                ops += ["timeout 0", "%s %s s" % (rng.choice(["call", "typed"]), mb.show_req(req))]
+                tmo = rng.choice(["-", "1000"])       # zero only for the operation that meets a silent peer: with a reply on its way a zero timeout is a race
+                body = "%s %s %s %s" % (proto, tmo, "-" if slave is None else str(slave), " ; ".join(ops))
+                gid = "%szero%d" % (proto, i)
+                cs.append(Case("SYNC " + body, {"g": gid, "mode": "sync", "nops": len(ops), "zero": True}))
+                cs.append(Case("ASYNC " + body, {"g": gid, "mode": "async", "nops": len(ops), "zero": True}))
         return cs
 
     @staticmethod
